@@ -32,6 +32,7 @@ func valBuild(name string, seed uint64) *lib.Build {
 		b.PutFile("small.bin", rb(10))
 		b.PutFile("d/aligned.bin", rb(2*lib.BS))
 	case "nested":
+		b.PutDir("another-hollow")
 		b.PutFile("top.bin", rb(3*lib.BS+100))
 		b.PutFile("sub/one.bin", rb(lib.BS))
 		b.PutFile("sub/deep/two.bin", rb(lib.BS+1))
@@ -52,6 +53,7 @@ func valBuild(name string, seed uint64) *lib.Build {
 		b.PutFile("m1.bin", rb(lib.BS-1))
 		b.PutSymlink("lnk", "t.bin")
 		b.PutDir("emptydir")
+		b.PutDir("emptydir2")
 	}
 	return b
 }
@@ -67,6 +69,16 @@ func treeDamages(b *lib.Build) []lib.Damage {
 				lib.Damage{Op: "tosymlink", Path: e.Path, S: "nowhere"}, lib.Damage{Op: "emptydir", Path: e.Path})
 			if e.Path == "sub" {
 				out = append(out, lib.Damage{Op: "tosymlink", Path: e.Path, S: "sib"}) // sibling with equal child names
+			}
+			// replaced by a symlink to some OTHER existing directory (only the directory wound can tell)
+			for _, o := range b.Sorted() {
+				if o.Kind == lib.KDir && o.Path != e.Path && !strings.HasPrefix(o.Path, e.Path+"/") && !strings.HasPrefix(e.Path, o.Path+"/") {
+					rel, err := filepath.Rel(filepath.Dir(e.Path), o.Path)
+					if err == nil {
+						out = append(out, lib.Damage{Op: "tosymlink", Path: e.Path, S: rel})
+						break
+					}
+				}
 			}
 		case lib.KSymlink:
 			out = append(out, lib.Damage{Op: "rmsymlink", Path: e.Path}, lib.Damage{Op: "retarget", Path: e.Path, S: e.Dest + "x"},
